@@ -5,7 +5,7 @@
     alphabet with two distinct letters. *)
 From Coq Require Import List NArith Bool Arith.
 Import ListNotations.
-From VFS Require Import Path.Str Path.StrProofs Core.Types Layer.Run.
+From VFS Require Import Path.Str Path.StrProofs Core.Types Layer.Run Proofs.PathEq.
 
 Definition good (c : list N) : bool := good_comp N.eqb slashN dotN c.
 Definition goods (cs : list (list N)) : bool := forallb good cs.
@@ -84,6 +84,31 @@ Proof.
   apply (good_all_noslash N.eqb slashN dotN), H.
 Qed.
 
+(** equality ([PartialEq for VfsPath], modelled by [path_eq] on instance identities and parsed strings): two paths are
+    equal iff they belong to the same filesystem instance and have the same canonical string *)
+Theorem C06_equality : forall (i i' : nat) cs cs', goods cs = true -> goods cs' = true ->
+  (path_eq i (prs (rnd cs)) i' (prs (rnd cs')) = true <-> i = i' /\ rnd cs = rnd cs').
+Proof.
+  intros i i' cs cs' H H'. rewrite (C06_parse_render cs H), (C06_parse_render cs' H').
+  rewrite path_eq_iff. split.
+  - intros [-> ->]. split; reflexivity.
+  - intros [-> E]. split; [reflexivity|].
+    rewrite <- (C06_parse_render cs H), <- (C06_parse_render cs' H'). now rewrite E.
+Qed.
+
+Theorem C06_equality_components : forall (i i' : nat) (p p' : list (list N)),
+  path_eq i p i' p' = true <-> i = i' /\ p = p'.
+Proof.
+  exact path_eq_iff.
+Qed.
+
+(** non-vacuity: same string on two instances, two strings on one instance, the same path reached two ways *)
+Example C06_equality_example :
+  path_eq 0 (prs (rnd [[97]]%N)) 1 (prs (rnd [[97]]%N)) = false /\
+  path_eq 0 (prs (rnd [[97]]%N)) 0 (prs (rnd [[98]]%N)) = false /\
+  path_eq 2 (prs (rnd [[97]; [98]]%N)) 2 (prs (rnd [[97]; [98]]%N)) = true.
+Proof. vm_compute. repeat split. Qed.
+
 (** the relative join used by AltrootFS::path and OverlayFS::{read,write}_path *)
 Theorem C06_join_relative : forall bs cs,
   goods bs = true -> goods cs = true -> cs <> [] ->
@@ -112,4 +137,7 @@ Print Assumptions C06_reachable_parent.
 Print Assumptions C06_reachable_child.
 Print Assumptions C06_parse_render.
 Print Assumptions C06_join_relative.
+Print Assumptions C06_equality.
+Print Assumptions C06_equality_components.
+Print Assumptions C06_equality_example.
 Print Assumptions C06_example.
